@@ -361,9 +361,14 @@ def search_sampling(impl, pts, rng, n_samples):
 
 
 def search_grid(impl, polys):
-    g = impl.Grid(polys)
-    vols = [vx.volume for vx in g]
-    tot = g.total_volume
+    impl.crumb({"call": "ToroidalVoxelGrid(polygons).total_volume", "polygons": polys})
+    try:
+        g = impl.Grid(polys)
+        vols = [vx.volume for vx in g]
+        tot = g.total_volume
+    except (ZeroDivisionError, ValueError, TypeError, RuntimeError, IndexError) as e:
+        return None, [{"claim": "a grid of simple polygons reports its total volume (the implementation raised %s)"
+                                % type(e).__name__, "polygons": polys, "exception": repr(e)}]
     fails = []
     if len(vols) != len(polys):
         fails.append({"claim": "grid has one voxel per polygon", "polygons": len(polys), "voxels": len(vols)})
@@ -432,9 +437,9 @@ def run(ctx):
 
     # ---- polygons -------------------------------------------------------------------------------
     classes = ["triangle", "rectangle", "convex", "star", "star", "template"]
-    n_base = 150 if quick else 3000
+    n_base = 132 if quick else 3000
     n_allvar = 8 if quick else 150
-    n_emis = 90 if quick else 1500
+    n_emis = 72 if quick else 1500
     n_stat = 10 if quick else 150
     n_grids = 8 if quick else 60
     polys = []      # (class, exact, pts)
@@ -537,6 +542,8 @@ def run(ctx):
         tot, gf = search_grid(impl, gp)
         grid_fails += gf
         grid_sizes.append(size)
+        if tot is None:
+            continue
         cases.append("check_total %s [%s] %s" % (qlit(PI), "; ".join(ptlist(p) for p in gp), qlit(tot)))
         meta.append({"kind": "grid", "size": size, "polygons": gp, "total_volume": tot})
 
